@@ -471,6 +471,59 @@ Section AnalysisProofs.
       destruct (run_inv k _ _ c Hk HI Hc1) as (J1 & J2 & _). split; [exact J1|]. intros _. exact J2.
   Qed.
 
+  (* ---------------------------------------------------------------- no convergence point is ever overdue *)
+  Definition Due (k : nat) (st : ast) : Prop := processed st < last_regular (cols st) + k.
+
+  Lemma blc_due k seen st : 1 <= k -> Pre k seen st -> Due k (blc (Some k) st).
+  Proof.
+    intros Hk [Ha Hp (rest & Hm) Hs Hlt Hm0 Hsp Hc].
+    destruct st as [a p r s m cv cl cp]. cbn [acc processed results scores marks conv cols computes] in *.
+    subst m. unfold Due, batch_loop_compute. cbv zeta. cbn [marks processed].
+    rewrite last_last. cbn [app hd].
+    destruct (k <=? p - last_regular cl) eqn:E.
+    - unfold Analysis.append_col, Analysis.compute_results, Analysis.set_marks.
+      cbn [acc processed results scores marks conv cols computes].
+      unfold last_regular. rewrite last_regular_from_app. cbn. lia.
+    - apply Nat.leb_gt in E. unfold Analysis.set_marks.
+      cbn [acc processed results scores marks conv cols computes]. lia.
+  Qed.
+
+  Lemma fold_due k c subs : forall seen st,
+    1 <= k -> Inv k seen st -> Due k st -> Forall (fun b => b <> []) subs ->
+    Due k (fold_left (fun s sub => blc (Some k) (process c s sub)) subs st).
+  Proof.
+    induction subs as [|sub subs IH]; intros seen st Hk HI HD Hne; cbn [fold_left].
+    - exact HD.
+    - inversion Hne as [|? ? Hsub Hne']; subst.
+      destruct (batch_step k seen st c sub Hk HI Hsub) as (H1 & _). cbv zeta in H1.
+      apply (IH _ _ Hk H1); [|exact Hne'].
+      apply (blc_due k _ _ Hk (process_pre k seen st c sub HI Hsub)).
+  Qed.
+
+  Lemma final_due k st : Due k st -> Due k (final_compute (Some k) st).
+  Proof.
+    intros HD. destruct st as [a p r s m cv cl cp]. unfold Due in *.
+    unfold Analysis.final_compute. cbv zeta. unfold Analysis.compute_results.
+    cbn [acc processed results scores marks conv cols computes] in *.
+    destruct (1 <? length m).
+    - unfold Analysis.append_col. cbn [acc processed results scores marks conv cols computes].
+      unfold last_regular in *. rewrite last_regular_from_app. cbn. exact HD.
+    - cbn [acc processed results scores marks conv cols computes]. exact HD.
+  Qed.
+
+  Lemma run_seq_due k runs :
+    1 <= k -> Forall ok_container runs -> Due k (run_seq (Some k) fresh runs).
+  Proof.
+    intros Hk. induction runs as [|c runs IH] using rev_ind; intros Hall.
+    - unfold Due. cbn. lia.
+    - apply Forall_app in Hall. destruct Hall as [Hall Hc]. inversion Hc as [|? ? [Hne Hbs] _]; subst.
+      destruct (run_seq_inv k runs Hk Hall) as [HI _]. cbv zeta in HI.
+      rewrite run_seq_snoc. unfold Analysis.run, Analysis.run_batches.
+      apply final_due.
+      assert (Hebs : 1 <= eff_bs (Some k) (c_bs c)) by (apply eff_bs_pos; [exact Hk|exact Hbs]).
+      apply (fold_due k c _ _ _ Hk HI (IH Hall) (batches_nonempty _ _ Hebs)).
+  Qed.
+
   (* ---------------------------------------------------------------- histories with interrupted runs *)
   Notation run_interrupted := (run_interrupted X M V D St O Sc zero plus contrib comp sf model disc).
   Notation hist_seq := (hist_seq X M V D St O Sc zero plus contrib comp sf model disc).
@@ -627,6 +680,11 @@ Section AnalysisProofs.
     assert (Hsp := I_spaced _ _ _ HI). cbv zeta in Hsp. rewrite Hcols in Hsp.
     apply (spaced_from_split k l1 0 p l2 Hsp).
   Qed.
+
+  Theorem no_overdue_point_thm : forall (k : nat) (runs : list container),
+    1 <= k -> Forall ok_container runs ->
+    processed (run_seq (Some k) fresh runs) < last_regular (cols (run_seq (Some k) fresh runs)) + k.
+  Proof. intros k runs Hk Hall. exact (run_seq_due k runs Hk Hall). Qed.
 
   Theorem remainder_is_last_of_run_thm : forall (k : nat) (runs : list container) (c : container),
     1 <= k -> Forall ok_container runs -> ok_container c ->
